@@ -24,7 +24,25 @@ def special_configs(ctx):
     ]
 
 
-def one_run(ck, rng, stats, mode, conf_text, stdin_msg=None, samples=None, variant=None):
+def failing_configs(ctx, stdin):
+    """configurations whose real run would fail while evaluating or interpolating (over-long paths after
+    interpolation or as configured, missing destination, invalid back-reference, exec): -d must still leave nothing"""
+    head = 'stdin' if stdin else 'maildir "%(src)s"' % ctx
+    return [
+        head + ' {\n\tmatch header "X-Long" /(.+)/ move "%(mdA)s/\\1"\n}\n' % ctx,
+        head + (' {\n\tmatch all move "%(mdA)s/' % ctx) + 'd' * 4200 + '"\n}\n',
+        head + ' {\n\tmatch header "X-Long" /(.+)/ and isdirectory "%(mdA)s/\\1" move "%(mdA)s"\n}\n' % ctx,
+        head + ' {\n\tmatch header "X-Long" /(.+)/ label "\\1" flag !new\n}\n' % ctx,
+        head + ' {\n\tmatch all move "%(mdA)s/nowhere"\n}\n' % ctx,
+        head + ' {\n\tmatch header "X-Long" /(x)/ move "%(mdA)s/\\7"\n}\n' % ctx,
+        head + ' {\n\tmatch all exec stdin { "%(helper)s" "act" } move "%(mdA)s"\n}\n' % ctx,
+    ]
+
+
+LONG_MSG = b'From: a@example.org\nTo: b@example.org\nSubject: long\nX-Long: ' + b'x' * 5000 + b'\n\nbody\n'
+
+
+def one_run(ck, rng, stats, mode, conf_text, stdin_msg=None, samples=None, variant=None, long_msg=False):
     sb = mdrun.Sandbox()
     src = sb.maildir('src'); mdA = sb.maildir('mdA'); mdB = sb.maildir('mdB')
     helper, hout = confgen.install_helper(sb)
@@ -36,6 +54,8 @@ def one_run(ck, rng, stats, mode, conf_text, stdin_msg=None, samples=None, varia
         body = b'--q\nContent-Type: text/plain\n\npart\n--q--\n' if i == 3 else None
         sb.add(src, sub, confgen.message_for(env, i, extra, body), mtime=1500000000 + i)
     sb.add(mdB, 'cur', confgen.message_for((True, False, True), 99), mtime=1400000000)
+    if long_msg:
+        sb.add(src, 'new', LONG_MSG, mtime=1500000100)
     conf = sb.write_conf(text)
     before = sb.tree()
     log = os.path.join(sb.root, 'trace.log')
@@ -119,12 +139,21 @@ def run(ck):
         one_run(ck, rng, stats, '-n', f, stdin_msg=msg)
         one_run(ck, rng, stats, '-d', f, stdin_msg=msg, variant='dtunknown')
         one_run(ck, rng, stats, '-d', f, stdin_msg=msg, variant='devfull')
+    # configurations whose real run would fail, in both modes
+    for stdin in (False, True):
+        for k in range(7):
+            f = lambda ctx, sb, k=k, stdin=stdin: failing_configs(ctx, stdin)[k]
+            one_run(ck, rng, stats, '-d', f, stdin_msg=(LONG_MSG if stdin else None), long_msg=True)
+            one_run(ck, rng, stats, '-n', f, stdin_msg=(LONG_MSG if stdin else None), long_msg=True)
+            if ck.tier != 'quick' or k < 3:
+                one_run(ck, rng, stats, '-d', f, stdin_msg=(LONG_MSG if stdin else None), long_msg=True, variant='devfull')
     ck.coverage.update({
         'evaluations': stats['runs'],
         'distinct_nontrivial': stats['nontrivial'],
         'rule': 'random rule trees (confgen: and/or/!/parentheses/unparenthesised chains, nested blocks, actions move/flag/flags/label/add-header/discard/exec, '
                 'pass/break) plus 7 special configurations (missing destination, invalid back-reference, command condition + exec stdin + label, exec stdin body, '
-                'date+isdirectory, attachment block, two maildirs) over a population of 9 messages in new/cur; each with -d and with -n; stdin variants. '
+                'date+isdirectory, attachment block, two maildirs) over a population of 9 messages in new/cur; each with -d and with -n; stdin variants; 7 configurations whose real run '
+                'would fail (path too long after interpolation / as configured, missing destination, invalid back-reference, exec) in maildir and stdin mode. '
                 'non-trivial = a run that opened at least one message; distinct = distinct runs',
         'samples': samples,
         'traces_validated_against_impl': stats['runs'],
@@ -137,5 +166,6 @@ def replay(ck, rp):
     stats = dict(runs=0, viol=0, calls=0, nontrivial=0)
     import random
     text = rp['config']
-    one_run(ck, random.Random(1), stats, rp['mode'], lambda ctx, sb: text, stdin_msg=(confgen.message_for((True, True, True), 7) if rp.get('stdin') else None), variant=rp.get('variant'))
+    lm = 'X-Long' in text
+    one_run(ck, random.Random(1), stats, rp['mode'], lambda ctx, sb: text, stdin_msg=((LONG_MSG if lm else confgen.message_for((True, True, True), 7)) if rp.get('stdin') else None), variant=rp.get('variant'), long_msg=lm)
     return 1 if ck.violations else 0
